@@ -266,6 +266,17 @@ func TestMetadataGraphsFromText(t *testing.T) {
 		}
 		ids, dist := defs(x)
 		checkIDs(rt, test, x, o.Out, ids, dist)
+		// more than one module: another module with metadata of its own (same IDs, same names of named metadata)
+		// is parsed and held while the first is judged: the first module must still print what it printed, and
+		// its references must still be its own definitions
+		if other, _ := gen.Module(rt, cfg()); other != nil {
+			held, _, _ := lx.Parse(other.Text())
+			if again, pp := lx.Print(o.M); pp != nil || again != o.Out {
+				hx.Fail(rt, test, "ll", x+"\n; ---- parsed afterwards and held ----\n"+other.Text(), "after another module was parsed the first module prints differently (%v):\n%s", pp, llvmx.Diff(o.Out, again))
+			}
+			_ = held
+			hx.Hist("judged_while_another_parsed_module_is_held")
+		}
 		if s := identity(o.M); s != "" {
 			hx.Fail(rt, test, "ll", x, "%s", s)
 		}
